@@ -110,6 +110,7 @@ type Path struct {
 	funcsSeen map[*ssa.Function]int
 	locs map[string]*Cell
 	spec *specState
+	initBase int
 	inTimeNow bool
 	decided map[string]bool
 	curFn string
@@ -611,6 +612,9 @@ func (p *Path) ensureInit(pkg *ssa.Package) {
 		return
 	}
 	p.inInit++
+	savedBase := p.initBase
+	p.initBase = p.depth
+	defer func() { p.initBase = savedBase }()
 	savedSteps := p.steps
 	func() {
 		defer func() {
@@ -1127,7 +1131,7 @@ func (p *Path) prepCall(fr *Frame, cc *ssa.CallCommon) (Value, []Value) {
 
 func (p *Path) callInstr(fr *Frame, cc *ssa.CallCommon) Value {
 	fv, args := p.prepCall(fr, cc)
-	if p.inInit > 0 && p.depth <= 1 {
+	if p.inInit > 0 && p.depth == p.initBase+1 {
 		// tolerant mode for package initialisers: a failing call yields poison
 		var ret Value
 		failed := false
